@@ -18,6 +18,8 @@ import (
 	"errors"
 	"fmt"
 	"net/url"
+	"strconv"
+	"strings"
 )
 
 import (
@@ -96,11 +98,34 @@ func checkSupportCompress(acceptEncoding string) bool {
 }
 
 func checkSupportGzipCompress(acceptEncoding string) bool {
-	return bfe_http.HasToken(acceptEncoding, EncodeGzip)
+	return checkAcceptEncoding(acceptEncoding, EncodeGzip)
 }
 
 func checkSupportBrotliCompress(acceptEncoding string) bool {
-	return bfe_http.HasToken(acceptEncoding, EncodeBrotli)
+	return checkAcceptEncoding(acceptEncoding, EncodeBrotli)
+}
+
+// checkAcceptEncoding reports whether the Accept-Encoding value lists the given
+// content-coding with a non-zero weight (RFC 7231 section 5.3.4: "gzip;q=0" and
+// "gzip ; q=0" mean that gzip is not acceptable).
+func checkAcceptEncoding(acceptEncoding string, encoding string) bool {
+	for _, item := range strings.Split(acceptEncoding, ",") {
+		params := strings.Split(item, ";")
+		if !strings.EqualFold(strings.TrimSpace(params[0]), encoding) {
+			continue
+		}
+		for _, param := range params[1:] {
+			param = strings.TrimSpace(param)
+			if len(param) < 2 || (param[0] != 'q' && param[0] != 'Q') || param[1] != '=' {
+				continue
+			}
+			if q, err := strconv.ParseFloat(param[2:], 64); err != nil || q <= 0 {
+				return false
+			}
+		}
+		return true
+	}
+	return false
 }
 
 func (m *ModuleCompress) getCompressRule(req *bfe_basic.Request) (*compressRule, error) {
